@@ -21,6 +21,10 @@ var c12Queries = []string{
 	"SELECT SETVAR('k', a + 1), GETVAR('k') AS g FROM t WHERE a > ?",
 	"SELECT DISTINCT a + 1 AS b FROM t WHERE a > ?",
 	"SELECT FUSE((SELECT a + 1 AS z FROM dual)) FROM t WHERE a > ?",
+	"WITH c AS (SELECT a, ASYNC.vid(a + 1) AS v FROM t WHERE a > ?) SELECT * FROM c",
+	"SELECT * FROM (SELECT a, ASYNC.vid(a + 1) AS v FROM t WHERE a > ?) d",
+	"SELECT a, (SELECT ASYNC.vid(p) AS w FROM items) AS s FROM t WHERE a > ?",
+	"WITH c AS (SELECT a, ASYNC.vid(a) AS v FROM t), d AS (SELECT * FROM c WHERE a > ?) SELECT * FROM d",
 }
 
 func idFunc(q *Query, cur Map, o *FunctionOptions, args []any) (any, error) {
@@ -37,6 +41,15 @@ func H_C12_plain() {
 	qi := verif.Choose("query", len(c12Queries))
 	n := verif.Choose("rows", maxRows(2, 2)+1)
 	RegisterFunction("vid", idFunc)
+	hasAsync := false
+	for i := 0; i+5 <= len(c12Queries[qi]); i++ {
+		if c12Queries[qi][i:i+5] == "ASYNC" {
+			hasAsync = true
+		}
+	}
+	if hasAsync && n > 1+verif.Tier() {
+		verif.Assume(false) // queries with goroutines: one row (two in the thorough tier)
+	}
 	verif.Opt("maporder", 1)
 	verif.Opt("schedules", 1)
 	verif.Opt("preempt", 1)
